@@ -167,6 +167,28 @@ class C19(Prop):
         cfg['run_start'] = True
         nw = len(cfg['watchers'])
         ops = []
+        if rng.random() < 0.25:
+            # "started together" also when one of them is already running but
+            # short of workers (respawn off, a worker lost): the start fills
+            # it up, and the next watcher still has to wait its turn
+            a = rng.randrange(nw)
+            b = (a + 1 + rng.randrange(max(1, nw - 1))) % nw
+            wa = cfg['watchers'][a]
+            wa['opts']['respawn'] = False
+            wa['opts']['numprocesses'] = max(2, wa['opts']['numprocesses'])
+            wa['opts'].pop('singleton', None)
+            wa['opts'].pop('autostart', None)
+            cfg['watchers'][b]['opts'].pop('autostart', None)
+            cfg['warmup_delay'] = rng.choice([0.5, 1.1])
+            ops.extend([
+                {'op': 'die', 'w': a, 'j': 0, 'how': 'kill', 'place': 'now'},
+                {'op': 'quiet', 'checks': 1},
+                {'op': 'req', 'cmd': 'stop', 'w': b, 'props': {},
+                 'waiting': True, 'place': 'now', 'sync': True},
+                {'op': 'req', 'cmd': 'start', 'w': None, 'props': {},
+                 'waiting': True, 'place': 'now', 'sync': True,
+                 'c19_window': True},
+                {'op': 'quiet', 'checks': 1}])
         for _ in range(rng.choice([0, 1, 2, 3])):
             kind = rng.choice(['startall', 'restartglob', 'startglob'])
             glob = rng.choice(['w*', 'w*', 'W*', 'w[0-2]', 'w[13]', '*'])
